@@ -52,8 +52,11 @@ theorem soundS_succ (hS : SoundS env f) : SoundS env (f + 1) := by
   | cons i is =>
     simp only [Spec.evalSeq] at hev
     cases hq : Spec.eval false env f i st with
-    | err => simp [hq] at hev
-    | failed v => simp [hq] at hev
+    | stuck => simp [hq] at hev
+    | failed _ => simp [hq] at hev
+    | rtfail => simp [hq] at hev
+    | oof => simp [hq] at hev
+    | offguard => simp [hq] at hev
     | ok st1 =>
       simp only [hq, rbind_ok] at hev
       cases is with
@@ -81,8 +84,11 @@ theorem soundI_succ (hI : SoundI env f) : SoundI env (f + 1) := by
   | cons x xs =>
     simp only [Spec.evalIter] at hev
     cases hq : Spec.eval false env f body (x :: st) with
-    | err => simp [hq] at hev
-    | failed v => simp [hq] at hev
+    | stuck => simp [hq] at hev
+    | failed _ => simp [hq] at hev
+    | rtfail => simp [hq] at hev
+    | oof => simp [hq] at hev
+    | offguard => simp [hq] at hev
     | ok st1 =>
       simp only [hq, rbind_ok] at hev
       have hx := hxs x (by simp)
@@ -106,8 +112,11 @@ theorem soundM_succ (hM : SoundM env f) : SoundM env (f + 1) := by
   | cons x xs =>
     simp only [Spec.evalMap] at hev
     cases hq : Spec.eval false env f body (x :: st) with
-    | err => simp [hq] at hev
-    | failed v => simp [hq] at hev
+    | stuck => simp [hq] at hev
+    | failed _ => simp [hq] at hev
+    | rtfail => simp [hq] at hev
+    | oof => simp [hq] at hev
+    | offguard => simp [hq] at hev
     | ok r =>
       simp only [hq, rbind_ok] at hev
       have hx := hxs x (by simp)
@@ -129,8 +138,11 @@ theorem soundM_succ (hM : SoundM env f) : SoundM env (f + 1) := by
               (ys = [] → x :: xs = []) := by
           intro item hi2 hi3 hev
           cases hr : Spec.evalMap false env f body isMap xs st1 with
-          | err => simp [hr] at hev
-          | failed v => simp [hr] at hev
+          | stuck => simp [hr] at hev
+          | failed _ => simp [hr] at hev
+          | rtfail => simp [hr] at hev
+          | oof => simp [hr] at hev
+          | offguard => simp [hr] at hev
           | ok p =>
             obtain ⟨ys', st2⟩ := p
             simp [hr] at hev
@@ -262,8 +274,11 @@ theorem soundE_succ : SoundE env (f + 1) := by
     rw [stackWF_cons] at hw
     simp only [Spec.eval] at hev
     cases hq : Spec.eval false env f body st with
-    | err => simp [hq] at hev
-    | failed v => simp [hq] at hev
+    | stuck => simp [hq] at hev
+    | failed _ => simp [hq] at hev
+    | rtfail => simp [hq] at hev
+    | oof => simp [hq] at hev
+    | offguard => simp [hq] at hev
     | ok st1 =>
       simp [hq] at hev; subst hev
       simp only [List.map_cons, typeInstr] at hty
@@ -279,8 +294,11 @@ theorem soundE_succ : SoundE env (f + 1) := by
     split at hev
     · rename_i hn
       cases hq : Spec.eval false env f body (st.drop n) with
-      | err => simp [hq] at hev
-      | failed v => simp [hq] at hev
+      | stuck => simp [hq] at hev
+      | failed _ => simp [hq] at hev
+      | rtfail => simp [hq] at hev
+      | oof => simp [hq] at hev
+      | offguard => simp [hq] at hev
       | ok st1 =>
         simp [hq] at hev; subst hev
         simp only [typeInstr, List.length_map, hn, if_true] at hty
@@ -392,8 +410,11 @@ theorem soundE_succ : SoundE env (f + 1) := by
     | true =>
       simp only [Spec.eval] at hev
       cases hq : Spec.eval false env f body st with
-      | err => simp [hq] at hev
-      | failed v => simp [hq] at hev
+      | stuck => simp [hq] at hev
+      | failed _ => simp [hq] at hev
+      | rtfail => simp [hq] at hev
+      | oof => simp [hq] at hev
+      | offguard => simp [hq] at hev
       | ok st1 =>
         simp only [hq, rbind_ok] at hev
         cases hb : typeInstr false body (st.map typeOf) with
@@ -417,8 +438,11 @@ theorem soundE_succ : SoundE env (f + 1) := by
       simp only [List.map_cons, typeOf, typeInstr] at hty
       simp only [Spec.eval] at hev
       cases hq : Spec.eval false env f body (v :: st) with
-      | err => simp [hq] at hev
-      | failed w => simp [hq] at hev
+      | stuck => simp [hq] at hev
+      | failed _ => simp [hq] at hev
+      | rtfail => simp [hq] at hev
+      | oof => simp [hq] at hev
+      | offguard => simp [hq] at hev
       | ok st1 =>
         simp only [hq, rbind_ok] at hev
         have hwv : StackWF (v :: st) := stackWF_cons.mpr ⟨(wf_left v r).mp hw.1, hw.2⟩
@@ -518,15 +542,21 @@ theorem soundE_succ : SoundE env (f + 1) := by
               subst hs'
               simp only [Option.some.injEq] at hty
               cases hq : Spec.evalMap false env f body false xs st with
-              | err => simp [hq] at hev
-              | failed w => simp [hq] at hev
+              | stuck => simp [hq] at hev
+              | failed _ => simp [hq] at hev
+              | rtfail => simp [hq] at hev
+              | oof => simp [hq] at hev
+              | offguard => simp [hq] at hev
               | ok p =>
                 obtain ⟨ys, st1⟩ := p
                 simp only [hq, rbind_ok] at hev
                 obtain ⟨g1, g2, g3, g4⟩ := hM body false xs st ys st1 t t' hall hw.2 hb (by simp) hq
                 cases hl : Spec.listOf false body t st ys with
-                | err => simp [hl] at hev
-                | failed w => simp [hl] at hev
+                | stuck => simp [hl] at hev
+                | failed _ => simp [hl] at hev
+                | rtfail => simp [hl] at hev
+                | oof => simp [hl] at hev
+                | offguard => simp [hl] at hev
                 | ok r =>
                   simp [hl] at hev; subst hev
                   have hr : WF r ∧ typeOf r = .list t' := by
@@ -567,15 +597,21 @@ theorem soundE_succ : SoundE env (f + 1) := by
               subst hs'
               simp only [Option.some.injEq] at hty
               cases hq : Spec.evalMap false env f body true xs st with
-              | err => simp [hq] at hev
-              | failed w => simp [hq] at hev
+              | stuck => simp [hq] at hev
+              | failed _ => simp [hq] at hev
+              | rtfail => simp [hq] at hev
+              | oof => simp [hq] at hev
+              | offguard => simp [hq] at hev
               | ok p =>
                 obtain ⟨ys, st1⟩ := p
                 simp only [hq, rbind_ok] at hev
                 obtain ⟨g1, g2, g3, g4⟩ := hM body true xs st ys st1 (.pair k v) t' hall hw.2 hb (fun _ => ⟨k, v, rfl⟩) hq
                 cases hl : Spec.mapOf false body k v st ys with
-                | err => simp [hl] at hev
-                | failed w => simp [hl] at hev
+                | stuck => simp [hl] at hev
+                | failed _ => simp [hl] at hev
+                | rtfail => simp [hl] at hev
+                | oof => simp [hl] at hev
+                | offguard => simp [hl] at hev
                 | ok r =>
                   simp [hl] at hev; subst hev
                   have hr : WF r ∧ typeOf r = .map k t' := by
@@ -610,8 +646,11 @@ theorem soundE_succ : SoundE env (f + 1) := by
     split at hev
     · rename_i hta
       cases hq : Spec.eval false env f body [a] with
-      | err => simp [hq] at hev
-      | failed w => simp [hq] at hev
+      | stuck => simp [hq] at hev
+      | failed _ => simp [hq] at hev
+      | rtfail => simp [hq] at hev
+      | oof => simp [hq] at hev
+      | offguard => simp [hq] at hev
       | ok r =>
         simp only [hq, rbind_ok] at hev
         rcases r with _ | ⟨y, _ | ⟨z, r⟩⟩
